@@ -328,6 +328,7 @@ WORKLOADS = [
     Workload("integers", wl_ints, quick=12, thorough=400),
     Workload("documents", wl_docs, quick=600, thorough=8000),
     Workload("refused", wl_refused, quick=1, thorough=1),
+    __import__("stixmon.ambient", fromlist=["workload"]).workload("C16"),
 ]
 
 
